@@ -13,11 +13,15 @@ from .common import Failure, f2h, h2f, parse_reply
 
 ID = "C18"
 BIN = "c18"
-PROOF_MODULES = ["Compute.Props.C18", "Compute.Lemmas.C18Step", "Compute.Lemmas.C18Norm"]
+PROOF_MODULES = ["Compute.Props.C18", "Compute.Props.C18Review", "Compute.Lemmas.C18Step", "Compute.Lemmas.C18Norm"]
 REQUIRED_THEOREMS = [
     "Cv.C18.valid_inv", "Cv.C18.coherent_inv", "Cv.C18.update_total", "Cv.C18.observational_equality",
     "Cv.C18.new_isSome_iff", "Cv.C18.set_spec", "Cv.C18.update_spec", "Cv.C18.history_inv",
-    "Cv.C18.step_inv", "Cv.C18.reject_invalid", "Cv.C18.stream_equality",
+    "Cv.C18.step_inv", "Cv.C18.reject_invalid", "Cv.C18.stream_equality", "Cv.C18.reachable_inv",
+    # review round (Props/C18Review.lean)
+    "Cv.C18.modelled_observations_eq", "Cv.C18.sampleP_beta_param", "Cv.C18.sampleP_chisquared_param",
+    "Cv.C18.set_total_independent", "Cv.C18.uniform_set_iff", "Cv.C18.discreteuniform_set_iff",
+    "Cv.C18.chiSquared_setDof_srctie",
 ]
 RULE = ("random histories of 1..20 mutations (setters, bulk updates, re-construction; ~30% invalid values; valid "
         "targets on both sides of the current parameters, bounds entirely above / below the old interval) after a "
@@ -33,6 +37,19 @@ RULE = ("random histories of 1..20 mutations (setters, bulk updates, re-construc
         "step class and distinct (kind, op sequence) history")
 EXHAUSTIVE = {"quick": False, "thorough": False}
 NOT_PROVED = [
+    "clause 1 (observational identity with a fresh twin) is proved as RECORD EQUALITY over a linearly ordered field "
+    "(`reachable_inv`: the whole record, cached sub-samplers included, equals `new(current parameters)`); "
+    "`observational_equality` and `stream_equality` are its congruence corollaries and `modelled_observations_eq` instantiates "
+    "them with the modelled pdf / pmf / mean / var / sample of Model/C18Obs.lean over an ordered field with uninterpreted "
+    "transcendental functions.  Nothing is proved about these observations at Float, and nothing about the Rust methods: "
+    "at f64 the observation layer is tie (bit for bit) + twin oracle only",
+    "the clause `a setter to any valid value succeeds whatever the previous parameters were` is proved literally only for the 11 "
+    "kinds with independent fields (`set_total_independent`).  For Uniform / DiscreteUniform a bound is valid only jointly with "
+    "the other current bound (`uniform_set_iff`, `discreteuniform_set_iff`): `Uniform(0,1).set_lower(5)` panics, in the model and "
+    "in Rust, and must, since accepting it would create lower > upper; `set_spec` states the joint reading (a setter accepts iff "
+    "the constructor accepts the resulting parameter list).  `update` is total on valid pairs (`update_total`)",
+    "`does not depend on how many other distribution objects exist` has no theorem: a model sampler has no argument through "
+    "which another object could act (construction of the types); for Rust it is the interleaved-draws oracle",
     "the theorems are about the hand-written record model over a linearly ordered field; IEEE rounding plays no role in "
     "the state machine (only comparisons of parameters with 0, 1 and each other), the tie to the Rust code is the "
     "bit-for-bit comparison of every step of every generated history",
